@@ -61,6 +61,7 @@ func Parse(src string, ic Interceptors) (Pattern, SyntaxClass) {
 		return p, SynEmpty
 	}
 	seen := map[string]bool{}
+	dup := false // reported at the end: the tokens of such a pattern are still all there, for a router that accepts it
 	i := 0
 	lastWasParam := false
 	for i < len(src) {
@@ -101,7 +102,7 @@ func Parse(src string, ic Interceptors) (Pattern, SyntaxClass) {
 			return p, SynEmptyName
 		}
 		if seen[name] {
-			return p, SynDuplicate
+			dup = true
 		}
 		seen[name] = true
 		t.Name, t.Rule = name, rule
@@ -121,6 +122,9 @@ func Parse(src string, ic Interceptors) (Pattern, SyntaxClass) {
 		p.Toks = append(p.Toks, t)
 		lastWasParam = true
 		i += end + 1
+	}
+	if dup {
+		return p, SynDuplicate
 	}
 	return p, SynOK
 }
